@@ -256,31 +256,42 @@ def impl_cli(case, ref, est):
         save_flag = SETTINGS.save_traj_in_zip
         SETTINGS.save_traj_in_zip = True
         try:
+            refusal = None
             try:
                 main_ape.run(args)
             except Exception as e:  # noqa
-                return {"refused": type(e).__name__}
-            res = file_interface.load_res_file(zp, load_trajectories=True)
+                refusal = e
+            if refusal is None:
+                res = file_interface.load_res_file(zp, load_trajectories=True)
         finally:
             SETTINGS.save_traj_in_zip = save_flag
-        # independent orchestration of the documented order with evo's components
-        if fmt == "kitti":
-            tr, te = file_interface.read_kitti_poses_file(rp), file_interface.read_kitti_poses_file(ep)
-        elif fmt == "euroc":
-            tr, te = file_interface.read_euroc_csv_trajectory(rp), file_interface.read_tum_trajectory_file(ep)
-        else:
-            tr, te = file_interface.read_tum_trajectory_file(rp), file_interface.read_tum_trajectory_file(ep)
-        if o["downsample"]:
-            tr.downsample(o["downsample"])
-            te.downsample(o["downsample"])
-        if o["motion_filter"]:
-            tr.motion_filter(o["motion_filter"][0], o["motion_filter"][1], True)
-            te.motion_filter(o["motion_filter"][0], o["motion_filter"][1], True)
-        if fmt != "kitti":
-            if o["t_start"] or o["t_end"]:
-                tr.reduce_to_time_range(o["t_start"], o["t_end"])
-            tr, te = sync.associate_trajectories(tr, te, o["t_max_diff"], o["t_offset"])
-        tr, te = _independent_processing(case, tr, te)
+        def indep():
+            if fmt == "kitti":
+                tr, te = file_interface.read_kitti_poses_file(rp), file_interface.read_kitti_poses_file(ep)
+            elif fmt == "euroc":
+                tr, te = file_interface.read_euroc_csv_trajectory(rp), file_interface.read_tum_trajectory_file(ep)
+            else:
+                tr, te = file_interface.read_tum_trajectory_file(rp), file_interface.read_tum_trajectory_file(ep)
+            if o["downsample"]:
+                tr.downsample(o["downsample"])
+                te.downsample(o["downsample"])
+            if o["motion_filter"]:
+                tr.motion_filter(o["motion_filter"][0], o["motion_filter"][1], True)
+                te.motion_filter(o["motion_filter"][0], o["motion_filter"][1], True)
+            if fmt != "kitti":
+                if o["t_start"] or o["t_end"]:
+                    tr.reduce_to_time_range(o["t_start"], o["t_end"])
+                tr, te = sync.associate_trajectories(tr, te, o["t_max_diff"], o["t_offset"])
+            tr, te = _independent_processing(case, tr, te)
+            return tr, te
+        try:
+            tr, te = indep()
+        except Exception as e2:  # noqa
+            if refusal is not None and type(e2) is type(refusal):
+                return {"both_refused": type(e2).__name__}
+            raise
+        if refusal is not None:
+            return {"refused": type(refusal).__name__}
         names = list(res.trajectories.keys())
         sr = res.trajectories[[k for k in names if k.endswith("ref.txt")][0]]
         se = res.trajectories[[k for k in names if k.endswith("est.txt")][0]]
@@ -352,6 +363,8 @@ def judge(case, val, out):
                 return _sv("APE of a trajectory against itself is not zero")
         return None
     # ape_fn / ape_cli
+    if "both_refused" in out:
+        return None
     if "refused" in out:
         if case.get("expect_refusal"):
             return None
